@@ -12,7 +12,7 @@ ALLSET = QUICKSET + [(n, o) for n in range(25, 65, 3) for o in (0, 3, 5)]
 OBLIGATIONS = [
     Ob("value_hash.intfloat", "C10/value_hash.c", desc="Int/Float: eq=>hash equal, alloc-class independence, assign, swap; full width", unwindset=US, checks=["bounds", "pointer"], tiers=Q, timeout=600),
     Ob("string_hash.stack.len4.uf", "C10/string_hash.c", defs=["SLEN=4", "LIGHT", "UFHASH"], replace_calls=["hash_data:v_hash_data"], desc="String / Type Hash hand exactly the characters (terminator excluded) resp. the name to hash_data (uninterpreted here): same characters at another address hash the same", unwindset=US + ["strlen.0:8", "strcpy.0:8", "harness.0:8", "harness.1:8", "v_hash_data.0:18", "v_hash_data.1:18", "v_hash_data.2:18"], checks=["bounds", "pointer"], tiers=Q, timeout=900),
-    Ob("string_hash.stack.len4", "C10/string_hash.c", defs=["SLEN=4", "LIGHT"], desc="String hash = hash_data over exactly len characters; same characters at another address are eq and hash the same; Type hash by name", unwindset=US + ["strlen.0:8", "strcpy.0:8", "harness.0:8", "harness.1:8"], checks=["bounds", "pointer"], tiers=("thorough",), timeout=3600, backend="z3"),
+    Ob("string_hash.stack.len4", "C10/string_hash.c", defs=["SLEN=4", "LIGHT"], desc="String hash = hash_data over exactly len characters; same characters at another address are eq and hash the same; Type hash by name", unwindset=US + ["strlen.0:8", "strcpy.0:8", "harness.0:8", "harness.1:8"], checks=["bounds", "pointer"], tiers=("probe",), timeout=3600, backend="z3"),
     Ob("string_hash.len4", "C10/string_hash.c", defs=["SLEN=4", "UFHASH"], replace_calls=["hash_data:v_hash_data"], desc="String hash/copy/assign/swap, content <= 4 bytes (hash_data uninterpreted)", unwindset=US + ["strlen.0:8", "strcpy.0:8", "harness.0:8", "harness.1:8", "v_hash_data.0:18", "v_hash_data.1:18", "v_hash_data.2:18", "memcpy.0:8", "memcpy.1:12"], checks=["bounds", "pointer"], tiers=("probe",), timeout=900),
     Ob("string_hash.len8", "C10/string_hash.c", defs=["SLEN=8", "UFHASH"], replace_calls=["hash_data:v_hash_data"], desc="String hash/copy/assign/swap, content <= 8 bytes", unwindset=US + ["strlen.0:12", "strcpy.0:12", "harness.0:12", "harness.1:12"], unwind=12, checks=["bounds", "pointer"], tiers=("probe",), timeout=3600, backend="z3"),
 ] + [
@@ -25,7 +25,7 @@ OBLIGATIONS += [Ob("table_cmp.ns5", "C10/table_cmp.c", defs=["NS=5", "OP=0", "EL
                    replace_calls=["len:v2_len", "mem:v2_mem", "get:v2_get", "iter_init:v2_iter_init", "iter_next:v2_iter_next", "neq:v2_neq", "cmp:v2_cmp", "Table_Get:v2_table_get"],
                    checks=["bounds", "pointer", "div0"], tiers=Q, timeout=1800, mem_gb=10, desc="Table cmp/eq between an arbitrary valid 5-slot Table and an abstract other Table (free entries, free iteration order)")]
 PUS = US + ["memswap.0:140", "memcpy.0:20", "memcpy.1:140", "memcmp.0:140", "hash_data.0:20", "harness.0:140", "harness.1:140", "harness.2:140", "harness.3:140"]
-OBLIGATIONS += [Ob("struct_swap.sz%d" % z, "C10/pointer_swap.c", defs=["CASE=1", "SZ=%d" % z], unwind=140, unwindset=PUS, checks=["bounds", "pointer"], tiers=Q, timeout=900, backend="z3" , desc="default swap/assign/eq/hash on a plain %d-byte struct" % z) for z in (24, 72, 136)]
+OBLIGATIONS += [Ob("struct_swap.sz%d" % z, "C10/pointer_swap.c", defs=["CASE=1", "SZ=%d" % z], unwind=140, unwindset=PUS, checks=["bounds", "pointer"], tiers=Q, timeout=1800, backend="z3" , desc="default swap/assign/eq/hash on a plain %d-byte struct" % z) for z in (24, 72, 136)]
 OBLIGATIONS += [Ob("ref_assign.sub%d" % u, "C10/pointer_swap.c", defs=["CASE=2", "SUB=%d" % u], unwind=20, unwindset=PUS, checks=["bounds", "pointer"], tiers=Q, timeout=900, desc="Ref assign/copy/eq/hash, one level of dereference (part %d)" % u) for u in range(3)]
 OBLIGATIONS += [Ob("box_owns.kind%d" % u, "C10/pointer_swap.c", defs=["CASE=3", "SUB=%d" % u], unwind=20, unwindset=PUS, checks=["bounds", "pointer"], tiers=Q, timeout=900, replace_calls=["del:v_del"], desc="Box finalisation hands the pointee to del exactly once (%s Box)" % ["stack", "heap", "embedded"][u]) for u in range(3)]
 OBLIGATIONS += pick("C04", r"tuple\.cmphash\.n[23]m[23]") + pick("C03", r"tree\.cmphash\.q")
